@@ -701,6 +701,64 @@ fn roundtrip_cases(rng: &mut Rng, tier: &str, out: &mut Out) {
     }
 }
 
+/// (2b) extraction where the file callback DECLINES some files (every r-th in sorted order):
+/// each accepted file still receives exactly its own bytes, declined files receive nothing.
+fn decline_cases(rng: &mut Rng, tier: &str, out: &mut Out) {
+    let n = if tier == "thorough" { 24 } else { 6 };
+    let mut done = 0;
+    while done < n {
+        let mut plan = gen_c_plan(rng, 2_000);
+        if plan.names.len() < 3 {
+            // interleave a few more files
+            for extra in ["zz/x", "m", "b/c/d"] {
+                if plan.names.len() < 4 && !plan.names.contains(&extra.as_bytes().to_vec()) {
+                    plan.names.push(extra.as_bytes().to_vec());
+                    let f = plan.names.len() - 1;
+                    let sz = rng.range(1, 90) as usize;
+                    plan.pieces.push((f, rng.bytes(sz)));
+                    let sz2 = rng.range(0, 40) as usize;
+                    plan.pieces.insert(0, (f, rng.bytes(sz2)));
+                }
+            }
+        }
+        for r in [1u64, 2, 3] {
+            let mut prog = plan_prog(&plan, 0, rng.next(), 0);
+            prog.ops.push(vec![3, 0]);
+            prog.ops.push(vec![4, 0, 1]);
+            prog.ops.push(vec![11, 0, 0]);
+            prog.xc[3] = r;
+            let res = run_child(&prog);
+            let oracle = (|| {
+                if let Some(bad) = res.rows.iter().position(|x| x[0] != ST_OK) {
+                    return Err(format!("valid call {bad} ({:?}) returned status {:#x}", prog.ops[bad], res.rows[bad][0]));
+                }
+                let contents = plan_contents(&plan);
+                let mut exp: Vec<(Vec<u8>, Vec<u8>)> = plan.names.iter().cloned().zip(contents).collect();
+                exp.sort();
+                // the file callback is asked in sorted order; the k-th (1-based) is declined when k % r == 0
+                for (k, e) in exp.iter_mut().enumerate() {
+                    if (k as u64 + 1) % r == 0 {
+                        e.1 = Vec::new();
+                    }
+                }
+                if res.files.len() != exp.len() {
+                    return Err(format!("the file callback was asked about {} files, the archive has {}", res.files.len(), exp.len()));
+                }
+                for (got, want) in res.files.iter().zip(&exp) {
+                    if got != want {
+                        return Err(format!("extraction with every {r}-th file declined: the writer supplied for {:?} received {} bytes, expected {} (its own content, or nothing when declined)",
+                                           String::from_utf8_lossy(&want.0), got.1.len(), want.1.len()));
+                    }
+                }
+                Ok(())
+            })();
+            emit(out, format!("c20-decline-{done}-r{r}"), &format!("extract-declining every={r} files={}", plan.names.len()), &prog, &res, oracle, false,
+                 json!({"every": r, "files": plan.names.len()}), None);
+        }
+        done += 1;
+    }
+}
+
 /// A small fixed plan used by the misuse and failure sweeps.
 fn small_plan(rng: &mut Rng) -> Plan {
     Plan {
@@ -901,6 +959,7 @@ fn failure_cases(rng: &mut Rng, tier: &str, out: &mut Out) {
 pub fn c20_cases(rng: &mut Rng, tier: &str, out: &mut Out) {
     misuse_cases(rng, tier, out);
     roundtrip_cases(rng, tier, out);
+    decline_cases(rng, tier, out);
     failure_cases(rng, tier, out);
     random_cases(rng, tier, out);
 }
